@@ -72,7 +72,10 @@ _BASE_LOOPS = dict(_LOOPS, **{'harness_c10_base.0': 20, 'harness_c10_base.1': 20
 
 def _hb(hid, desc, defs, cap=2400):
     return {'id': hid, 'property': 'C10', 'src': 'c10_base.cxx', 'entry': 'harness_c10_base', 'tus': _TUS, 'cut': _CUT,
-            'skip_ctors': _SKIP, 'models': ['list.c', 'c10_list.c'], 'tiers': ('thorough',),
+            # get_virtual_funcs names the inherited function through CPPNameComponent::get_name_with_templ, which builds the
+            # name in a std::ostringstream: opaque stream model, TUs lowered with -fno-inline (see cat/c06.py)
+            'skip_ctors': _SKIP, 'models': ['list.c', 'c10_list.c', 'noinline.c'], 'tuflags': ['-fno-inline', '-fno-pic'],
+            'tiers': ('thorough',),
             'desc': desc, 'oracle': _ORACLE.replace('c10_oracle.h', 'c10_oracle.h (c10d_*)'),
             'domain': 'class B with special members as in the single-class harnesses (kinds by concrete loops, access symbolic) and '
                       'class A : public B declaring no special member; here: ' + desc,
@@ -80,8 +83,10 @@ def _hb(hid, desc, defs, cap=2400):
 
 
 HARNESSES += [
-    _hb('c10_base_pv', 'B abstract (pure virtual f, at most one more special member); A with and without the overrider void f()',
-        {'PRESENCE': _presence(8, 9, 12), 'OVERRIDES': 3}),
+    _hb('c10_base_pv', 'B abstract (pure virtual f, no other special member); A with and without the overrider void f()',
+        {'PRESENCE': _presence(8), 'OVERRIDES': 3}),
+    _hb('c10_base_pv2', 'B abstract with one more special member; A with and without the overrider void f()',
+        {'PRESENCE': _presence(9, 12), 'OVERRIDES': 3}),
     _hb('c10_base_one', 'B with at most one special member, A without f', {'PRESENCE': _presence(0, 1, 2, 4), 'OVERRIDES': 1}),
     _hb('c10_base_two', 'B with two special members, A without f', {'PRESENCE': _presence(3, 5, 6), 'OVERRIDES': 1}),
 ]
